@@ -167,3 +167,7 @@ package transport
 //@   modifies chunk
 //@   at return set chunk = result.0
 //@   ensures #chunk-is-what-was-read result.0 == chunk
+
+// ---- C16: telnet leaves no write deadline armed on the socket (every later write is judged on its own) ------------------
+//@ func (*Telnet).Open [C16]
+//@   ensures #no-write-deadline-is-left-armed result == nil ==> !wdl
